@@ -6,7 +6,13 @@ For property P and adapter A (if A.props has P):
   * result codes (see Base/EnvSig.v, Harness/HEnv.v): tags in CONCRETE mean the property itself fails on the
     implementation's own observables (a replayable failing input); other non-zero tags mean model and
     implementation disagree (correspondence broken) -> more episodes are generated and only the concrete
-    tags are looked for (the search).
+    tags are looked for (the search);
+  * C02 / C04 additionally: every rollout records, after reset and after EVERY step, the bookkeeping keys of the env's
+    step output that the adapter's row model has a counterpart for (adapter.book_keys: i, current_node, first_node,
+    agent_idx, used_capacity, current_time, visited, ... per env); `book_stage` hands them to the adapter's Gallina
+    `check_book` (Harness/HBook.v): a key that differs from its model-free definition (i = number of steps,
+    current_node = last action, first_node = first action) is a concrete failure (22), a key that differs from the
+    row model's state breaks the correspondence (21).
 """
 from __future__ import annotations
 
@@ -24,7 +30,7 @@ from vt import envh
 
 logging.getLogger("rl4co").setLevel(logging.ERROR)
 logging.getLogger().setLevel(logging.ERROR)
-from vt.common import Ctx, clist, cbool, cboollist, cnatlist, cz, coq_eval_shards
+from vt.common import Ctx, clist, cbool, cboollist, cnat, cnatlist, cz, coq_eval_shards
 
 # tags for which the implementation's own behaviour contradicts the property (no model involved)
 CONCRETE = {
@@ -39,6 +45,8 @@ CONCRETE = {
     16: "feasible-solution-not-reachable-through-mask",
     17: "outcome-depends-on-batch-or-padding",
     18: "crash-on-offered-action",
+    22: "step-output-key-differs-from-its-definition",          # bookkeeping keys with a model-free meaning (i, current_node, first_node)
+    23: "checker-accepts-instance-outside-documented-format",   # the instance fails the checker's own sanity assertions
 }
 DISAGREE = {20: "instance outside the documented format (wfb false)", 21: "final bookkeeping (first_node/current_node/i) differs from the model",
             19: "generated instance fails wfb", 1: "mask relation", 2: "action not offered by the model", 3: "done differs", 7: "model step not ok",
@@ -195,6 +203,125 @@ def report_codes(adapter, pid, ok_items, codes, ctx, searching=False):
     return nc, nd
 
 
+# ------------------------------------------------------------------------------------------ bookkeeping (C02 / C04)
+BOOK_PIDS = ("C02", "C04")
+BOOK_KINDS = {21: "differs from the row model", 22: "differs from its definition"}
+
+
+def _bz(n) -> str:
+    """compact Coq term of an integer (large ones: odd mantissa in hex shifted left)"""
+    n = int(n)
+    a = abs(n)
+    if a < (1 << 24):
+        return "%d" % n if n >= 0 else "(%d)" % n
+    e = (a & -a).bit_length() - 1
+    m = "0x%x" % (a >> e)
+    if n < 0:
+        m = "(-%s)" % m
+    return "(Z.shiftl %s %d)" % (m, e) if e else m
+
+
+def book_stage(adapter, pid, items, ctx, tier):
+    """The bookkeeping keys of the env's step output (adapter.book_keys), recorded after reset and after every step of
+    the episodes of this run (vt/envh.py BOOK), against the row model and -- for i / current_node / first_node --
+    against their definition: Gallina `check_book` of the adapter's harness (Harness/HBook.v).
+    22 (a key differs from its definition) is a concrete failing input; 21 (differs from the row model) breaks the
+    correspondence."""
+    fn = getattr(adapter, "book_fn", None)
+    if not fn or pid not in BOOK_PIDS:
+        return {}
+    cand = [it for it in items if it.ep.book0 is not None and it.ep.book]
+    ctx.count("%s/book/episodes_recorded" % adapter.name, len(cand))
+    cap = 48 if tier == "quick" else 400
+    if len(cand) > cap:
+        # keep the spread: batched rows and rows with padding steps first, then round-robin over the variants
+        rng = ctx.rng
+        rng.shuffle(cand)
+        cand.sort(key=lambda it: (0 if it.batch != "solo" else 1))
+        groups = {}
+        for it in cand:
+            groups.setdefault(str(sorted(it.variant.items())), []).append(it)
+        sel, depth = [], 0
+        while len(sel) < cap and any(len(g) > depth for g in groups.values()):
+            for k in sorted(groups):
+                if len(groups[k]) > depth and len(sel) < cap:
+                    sel.append(groups[k][depth])
+            depth += 1
+        cand = sel
+    cases, meta = [], []
+    for it in cand:
+        ep = it.ep
+        k_stop = len(ep.book)
+        if ep.dead_end is not None:
+            k_stop = min(k_stop, ep.dead_end)           # a row with an empty mask was stepped with a fill-in action
+        names, is_float = adapter.book_names(it.td_reset)
+        rows = [ep.book0] + ep.book[:k_stop]
+        if any(len(r) != len(names) for r in rows):
+            ctx.count("%s/book/shape_mismatch" % adapter.name)
+            continue
+        try:
+            rows = [adapter.book_encode(r, is_float) for r in rows]
+        except ValueError:
+            ctx.count("%s/not_representable" % adapter.name)
+            continue
+        book0, book = rows[0], rows[1:]
+        exact = adapter.book_exact(it)
+        tols = []
+        for j, fl in enumerate(is_float):
+            if not fl or exact:
+                tols.append(0)
+            else:
+                tols.append(max(1 << envh.S64, max(abs(r[j]) for r in rows)) >> 17)
+        try:
+            inst = adapter.coq_instance(it.env, it.td_reset, it.variant)
+        except ValueError:
+            ctx.count("%s/not_representable" % adapter.name)
+            continue
+        tr = clist("(%s, %s)" % (cnat(a), clist(_bz(x) for x in o)) for a, o in zip(ep.actions[:k_stop], book))
+        cases.append("(%s, %s, %s, %s)" % (inst, clist(_bz(t) for t in tols), clist(_bz(x) for x in book0), tr))
+        meta.append((it, names, k_stop, exact, book0, book))
+        ctx.count("%s/book/steps_compared" % adapter.name, k_stop + 1)
+        ctx.count("%s/book/episodes_%s" % (adapter.name, "exact(tolerance 0)" if exact else "float(relative 2^-17)"))
+    if not cases:
+        return {}
+    codes = coq_eval_shards("cases_%s_%s_book" % (pid, adapter.name), adapter.header, adapter.book_type, fn, cases,
+                            shard=max(6, min(adapter.shard, (len(cases) + 3) // 4)))
+    nd = nc = 0
+    first = None
+    for (it, names, k_stop, exact, book0, book), c in zip(meta, codes):
+        if c == 0:
+            continue
+        tag, rest = c % 1000, c // 1000
+        k, d = rest // 64, rest % 64
+        key = names[d - 1] if 1 <= d <= len(names) else "entry %d" % d
+        obs = (book0 if k == 0 else book[k - 1]) if k <= len(book) else None
+        acts = it.ep.actions[:k]
+        extra = {"code": c, "step": k, "key": key, "keys_compared": names,
+                 "observed_entries_after_that_step": obs, "observed_value": (obs[d - 1] if obs and 1 <= d <= len(obs) else None),
+                 "observed_raw": ((it.ep.book0 if k == 0 else it.ep.book[k - 1]) if k <= len(it.ep.book) else None),
+                 "actions_up_to_that_step": acts,
+                 "note": "float entries are scaled by 2^64, bool vectors are numbers (bit j = entry j)"}
+        if tag == 22:
+            definition = {"i": "number of env.step calls since reset = %d" % k,
+                          "current_node": "the action just taken = %s" % (acts[-1] if acts else 0),
+                          "first_node": "the first action of the episode = %s" % (acts[0] if acts else 0)}.get(key.split("[")[0], "?")
+            nc += 1
+            ctx.failure("%s/%s: %s(%s)" % (adapter.name, adapter.variant_tag(it.variant), CONCRETE[22], key.split("[")[0]),
+                        it.replay(dict(extra, what="td[%r] after step %d %s: %s" % (key, k, BOOK_KINDS[22], definition),
+                                       expected=definition)), tag=adapter.name)
+        else:
+            nd += 1
+            first = first or (it, c, extra, key, k)
+    if first:
+        it, c, extra, key, k = first
+        path = ctx.write_replay(it.replay(dict(extra, property=pid, what="model/implementation disagreement: td[%r] after step %d %s" % (
+            key, k, BOOK_KINDS.get(c % 1000, "?")))), tag="corr-" + adapter.name)
+        ctx.broken.append("correspondence %s/%s (bookkeeping keys of the step output): %d disagreement(s); first: td[%r] after step %d %s, variant %s, case file %s" % (
+            pid, adapter.name, nd, key, k, BOOK_KINDS.get(c % 1000, "?"), it.variant, path))
+    return {"book_episodes": len(cases), "book_disagreements": nd, "book_concrete": nc,
+            "book_keys": [k for k, _ in adapter.book_keys]}
+
+
 def impl_level_failures(adapter, pid, items, ctx):
     """property failures visible without any model: crashes on offered actions, dead ends (C02)"""
     if pid != "C02":
@@ -219,8 +346,13 @@ def run_env_property(ctx: Ctx, proofs_ok: bool, pid: str, only=None):
         unit = {"cases": 0, "disagreements": 0, "concrete_failures": 0}
         try:
             unit_proofs = ctx.proof_units.get("%s_%s" % (pid, adapter.name), proofs_ok)
-            items = adapter.collect(ctx, pid, tier) if hasattr(adapter, "collect") else collect(adapter, ctx, tier)
-            extra = adapter.extra_items(ctx, pid, tier) if hasattr(adapter, "extra_items") else []
+            # C02 / C04: every rollout also records the bookkeeping keys of the step output (compared in book_stage)
+            envh.BOOK = adapter.book_values if (pid in BOOK_PIDS and getattr(adapter, "book_fn", None)) else None
+            try:
+                items = adapter.collect(ctx, pid, tier) if hasattr(adapter, "collect") else collect(adapter, ctx, tier)
+                extra = adapter.extra_items(ctx, pid, tier) if hasattr(adapter, "extra_items") else []
+            finally:
+                envh.BOOK = None
             items = items + extra
             impl_level_failures(adapter, pid, items, ctx)
             for it in items:
@@ -233,10 +365,19 @@ def run_env_property(ctx: Ctx, proofs_ok: bool, pid: str, only=None):
             ok_items, codes = evaluate(adapter, pid, adapter.props[pid], items, ctx)
             nc, nd = report_codes(adapter, pid, ok_items, codes, ctx)
             unit.update(cases=len(codes), disagreements=nd, concrete_failures=nc)
+            if pid in BOOK_PIDS and getattr(adapter, "book_fn", None):
+                t1 = time.time()
+                bu = book_stage(adapter, pid, items, ctx, tier)
+                unit.update(bu)
+                unit["book_wall_s"] = round(time.time() - t1, 1)
+                nc += bu.get("book_concrete", 0)
+                nd += bu.get("book_disagreements", 0)
             # property-specific extras implemented by the adapter (C04 batch differential, C05 enumeration, C06 corruptions)
             hook = getattr(adapter, "extra_" + pid.lower(), None)
             if hook is not None:
+                t1 = time.time()
                 unit.update(hook(ctx, tier, items) or {})
+                unit["hook_wall_s"] = round(time.time() - t1, 1)
             if (nd or not unit_proofs) and not nc:
                 # the search: more and deeper episodes, looking only for concrete failures of the property
                 more = collect(adapter, ctx, "thorough", scale=0.6 if tier == "quick" else 1.0)
